@@ -76,9 +76,39 @@ class TU:
     def has(self, fn):
         return fn in self.meta and fn in self.mod.functions
 
+    BOOTSTRAP = ("w_ctor", "w_observe")
+
+    def table_offset(self):
+        """offset of the address-table pointer inside the container (None for all-fixed locators), from the
+        constructor summary: the allocated block that is not data_begin()"""
+        if not hasattr(self, "_table_off"):
+            self._table_off = None
+            if "w_ctor" in self.meta and not self.pl.all_fixed_locator:
+                sm = self.S("w_ctor")
+                mem = self.arg("w_ctor", "mem")
+                begin = self.obs("w_ctor", "post", "begin").single_atom()
+                offs = {}
+                for (addr, size), v in sm.final.items():
+                    off = (addr - mem).const()
+                    a = v.single_atom() if isinstance(v, Lin) else None
+                    if off is not None and size == 8 and a is not None and a[0] == "fresh" and a != begin:
+                        offs.setdefault(a, []).append(off)
+                if offs:
+                    self._table_off = min(min(v) for v in offs.values())
+        return self._table_off
+
     def S(self, fn):
         if fn not in self._sm:
-            self._sm[fn] = absint.summarize(self.mod, fn, calls.classify, record_loads=True)
+            opts = {"record_loads": True}
+            if fn not in self.BOOTSTRAP and "w_ctor" in self.meta:
+                toff = self.table_offset()
+                tf = set()
+                if toff is not None:
+                    for i, nm in enumerate(self.meta[fn]["params"]):
+                        if nm in ("v", "w", "mem"):
+                            tf.add((i, toff))
+                opts["table_fields"] = tf
+            self._sm[fn] = absint.summarize(self.mod, fn, calls.classify, **opts)
         return self._sm[fn]
 
     def argidx(self, fn, name):
